@@ -35,9 +35,24 @@
       [json_marshal] / [yaml_marshal] = the entries MarshalJSON / MarshalYAML write;
     - [json_doc entries] = the parse of a legacy JSON document (list of (ID, value bytes); a
       missing, null or "" value is the entry of no bytes); [width_ok i] : r_parser i = r_ser i > 0;
-      [full_width i] : the Go type is as wide as the serialisation (r_bits i = 8 * r_parser i). *)
+      [full_width i] : the Go type is as wide as the serialisation (r_bits i = 8 * r_parser i);
+    - (Model/MarshalOps.v) [value_from_bytes_tables] = ValueFromBytes AS WRITTEN: the key's special
+      case, then the parser tables [parser64_ids] / [parser32_ids] / [parser8_ids] in this order,
+      binary.Read + the bytes-left-over test ([read_uint]), no look at the registry;
+      [parser_width id] = the width the first table listing id reads; [table_ids] = the key's ID
+      followed by the three tables;
+    - [find id l] = Registers.Find; [op] = one call on a Registers variable ([OUnmarshal d],
+      [OSort], [OMarshalJSON], [OMarshalYAML], [OFind id], and FlagRegisters.Set without a
+      document: [OSetNoPath], [OSetMissing], [OSetBlank]); [step st o] = (variable afterwards,
+      what the call showed); [run st ops] the same after each call of a history, [final st ops]
+      the variable at its end; [reads_only o] : o is neither Unmarshal nor Sort;
+      [quiet o] : o is no Unmarshal that succeeds; [is_sort o];
+    - [bytes_ok b] : every element is a byte; [doc_wf d] : the values of a JSON document are
+      bytes and no ID is repeated; [op_wf o] : the document of an Unmarshal is well formed;
+      [inv st] : every register of st is [valid] and no ID is repeated;
+      [reachable init st] : some history of well-formed calls takes the variable from init to st. *)
 From Coq Require Import NArith List String Permutation Sorting.Sorted.
-From CSS Require Import Model.Marshal Proofs.Marshal.
+From CSS Require Import Model.Marshal Model.MarshalOps Proofs.Marshal Proofs.MarshalOps.
 Import ListNotations.
 Open Scope N_scope.
 
@@ -127,7 +142,13 @@ Print Assumptions C16_sort_sorted.
 
 (** [_partial]: the third hypothesis is missing from the property as written.  A key whose
     32 bytes, read as the big-endian number the YAML document shows, fit 64 bits comes back
-    as an error (known finding C16-yaml-small-public-key, next theorem). *)
+    as an error (known finding C16-yaml-small-public-key, next theorem).
+    The clause cannot be had: the statement without the hypothesis is false of the code
+    ([C16_yaml_small_key_refuted], open finding), and the hypothesis is EXACTLY what is missing,
+    neither more nor less: [C16_yaml_roundtrip_iff] (section 17) proves that the round trip
+    is the identity iff it holds, [C16_yaml_roundtrip_err_iff] that it is an error iff it fails,
+    and [C16_small_key_iff] restates it on the raw value (a multiple of 2^192: the first 24
+    bytes of the key are zero). *)
 Theorem C16_yaml_roundtrip_partial : forall regs,
   Forall valid regs -> NoDup (ids regs) ->
   (forall r, In r regs -> fst r = key_id -> 2 ^ 64 <= be_value (le_bytes 32 (snd r))) ->
@@ -246,7 +267,9 @@ Theorem C16_yaml_marshal_parse : forall regs, Forall valid regs -> NoDup (ids re
 Proof. exact yaml_marshal_parse. Qed.
 Print Assumptions C16_yaml_marshal_parse.
 
-(** [_partial]: the key hypothesis of C16_yaml_roundtrip_partial (same known finding) *)
+(** [_partial]: the key hypothesis of C16_yaml_roundtrip_partial (same known finding; exact,
+    see [C16_yaml_roundtrip_iff]: by [C16_yaml_marshal_parse] the document MarshalYAML writes
+    parses to [yaml_roundtrip regs], which is an error iff the hypothesis fails) *)
 Theorem C16_unmarshal_yaml_marshalled_partial : forall dst regs,
   Forall valid regs -> NoDup (ids regs) ->
   (forall r, In r regs -> fst r = key_id -> 2 ^ 64 <= be_value (le_bytes 32 (snd r))) ->
@@ -403,6 +426,184 @@ Theorem C16_hex_key_wrong_length_refused : forall h b,
 Proof. exact hex_key_wrong_length_refused. Qed.
 Print Assumptions C16_hex_key_wrong_length_refused.
 
+(** * 14. ValueFromBytes as written: the parser tables
+
+    Sections 2, 12 and 13 speak about [value_from_bytes], which reads the width off the registry
+    entry.  The Go function does not consult the registry: it tries the key, then three
+    switch tables.  The two are the same function, for every identifier and every byte string;
+    the tables list each registered identifier exactly once and nothing else (the case labels
+    of the three switches are tied to the source by the constants tie). *)
+
+Theorem C16_parser_width_registry : forall id,
+  parser_width id = match lookup id registry with Some i => Some (r_parser i) | None => None end.
+Proof. exact parser_width_registry. Qed.
+Print Assumptions C16_parser_width_registry.
+
+Theorem C16_from_bytes_tables_agree : forall id b,
+  value_from_bytes_tables id b = value_from_bytes id b.
+Proof. exact from_bytes_tables_agree. Qed.
+Print Assumptions C16_from_bytes_tables_agree.
+
+Theorem C16_parser_tables_partition :
+  NoDup table_ids /\ Permutation table_ids (map r_id registry).
+Proof. exact (conj table_ids_nodup table_ids_registry). Qed.
+Print Assumptions C16_parser_tables_partition.
+
+(** some byte string is a value of the identifier iff the identifier is registered *)
+Theorem C16_from_bytes_known_iff_registered : forall id,
+  (exists b r, value_from_bytes_tables id b = ROk r) <-> lookup id registry <> None.
+Proof. exact from_bytes_known_iff_registered. Qed.
+Print Assumptions C16_from_bytes_known_iff_registered.
+
+(** * 15. Registers.Find *)
+
+Theorem C16_find_spec : forall id l r, find id l = Some r -> In r l /\ fst r = id.
+Proof. exact find_some. Qed.
+Print Assumptions C16_find_spec.
+
+Theorem C16_find_none_iff : forall id l, find id l = None <-> ~ In id (ids l).
+Proof. exact find_none. Qed.
+Print Assumptions C16_find_none_iff.
+
+Theorem C16_find_nodup_in : forall l r, NoDup (ids l) -> In r l -> find (fst r) l = Some r.
+Proof. exact find_nodup_in. Qed.
+Print Assumptions C16_find_nodup_in.
+
+(** what Find returns does not depend on the order of the collection *)
+Theorem C16_find_order_independent : forall a b id,
+  Permutation a b -> NoDup (ids a) -> find id a = find id b.
+Proof. exact find_perm. Qed.
+Print Assumptions C16_find_order_independent.
+
+(** whenever the YAML round trip yields a collection, every lookup in it gives what the same
+    lookup gave before *)
+Theorem C16_find_after_yaml : forall regs out id, Forall valid regs -> NoDup (ids regs) ->
+  yaml_roundtrip regs = ROk out -> find id out = find id regs.
+Proof. exact find_after_yaml_partial. Qed.
+Print Assumptions C16_find_after_yaml.
+
+(** * 16. Sort is idempotent *)
+
+Theorem C16_sort_idempotent : forall l, sort_regs (sort_regs l) = sort_regs l.
+Proof. exact sort_idem. Qed.
+Print Assumptions C16_sort_idempotent.
+
+(** * 17. the YAML round trip, exactly *)
+
+Theorem C16_yaml_roundtrip_iff : forall regs, Forall valid regs -> NoDup (ids regs) ->
+  (yaml_roundtrip regs = ROk (sort_regs regs) <->
+   forall r, In r regs -> fst r = key_id -> 2 ^ 64 <= be_value (le_bytes 32 (snd r))).
+Proof. exact yaml_roundtrip_iff. Qed.
+Print Assumptions C16_yaml_roundtrip_iff.
+
+Theorem C16_yaml_roundtrip_err_iff : forall regs, Forall valid regs -> NoDup (ids regs) ->
+  (yaml_roundtrip regs = RErr <->
+   exists r, In r regs /\ fst r = key_id /\ be_value (le_bytes 32 (snd r)) < 2 ^ 64).
+Proof. exact yaml_roundtrip_err_iff. Qed.
+Print Assumptions C16_yaml_roundtrip_err_iff.
+
+(** the condition on the raw value of the key (its 32 bytes read little-endian): the first 24
+    bytes are zero *)
+Theorem C16_small_key_iff : forall x,
+  be_value (le_bytes 32 x) < 2 ^ 64 <-> x mod 2 ^ 192 = 0.
+Proof. exact small_key_iff. Qed.
+Print Assumptions C16_small_key_iff.
+
+(** * 18. whatever is decoded is a valid register of the identifier asked for *)
+
+Theorem C16_from_bytes_result_valid : forall id b r,
+  bytes_ok b -> value_from_bytes id b = ROk r -> valid r /\ fst r = id.
+Proof. exact from_bytes_valid. Qed.
+Print Assumptions C16_from_bytes_result_valid.
+
+Theorem C16_yaml_entry_result_valid : forall id v r,
+  yaml_entry id v = ROk r -> valid r /\ fst r = id.
+Proof. exact yaml_entry_valid. Qed.
+Print Assumptions C16_yaml_entry_result_valid.
+
+Theorem C16_parsed_doc_invariant : forall d l,
+  doc_wf d -> parse_doc d = Some (ROk l) -> inv l.
+Proof. exact parse_doc_inv. Qed.
+Print Assumptions C16_parsed_doc_invariant.
+
+(** * 19. one Registers variable under any history of calls *)
+
+(** step: every call keeps the invariant ... *)
+Theorem C16_step_invariant : forall st o st' s,
+  inv st -> op_wf o -> step st o = Some (st', s) -> inv st'.
+Proof. exact step_inv. Qed.
+Print Assumptions C16_step_invariant.
+
+(** ... so it holds after every call of every history ... *)
+Theorem C16_history_invariant : forall ops st tr,
+  inv st -> Forall op_wf ops -> run st ops = Some tr -> Forall (fun x => inv (fst x)) tr.
+Proof. exact run_inv. Qed.
+Print Assumptions C16_history_invariant.
+
+(** ... and in every reachable state *)
+Theorem C16_reachable_invariant : forall init st, inv init -> reachable init st -> inv st.
+Proof. exact reachable_inv. Qed.
+Print Assumptions C16_reachable_invariant.
+
+(** serialising (and Find, and a Set that reads no document) shows the variable and leaves it
+    as it is *)
+Theorem C16_reads_only_keeps : forall st o st' s,
+  reads_only o = true -> step st o = Some (st', s) -> st' = st.
+Proof. exact step_reads_only. Qed.
+Print Assumptions C16_reads_only_keeps.
+
+(** every reachable state survives legacy JSON unchanged, order included, whatever the
+    destination held *)
+Theorem C16_reachable_json_fixpoint : forall init st, inv init -> reachable init st ->
+  exists e, step st OMarshalJSON = Some (st, SJson (ROk e)) /\
+            forall dst, step dst (OUnmarshal (DJson e)) = Some (st, SCall true).
+Proof. exact reachable_json_fixpoint. Qed.
+Print Assumptions C16_reachable_json_fixpoint.
+
+(** [_partial]: the key hypothesis of C16_yaml_roundtrip_partial, now on a reachable state (it
+    is exact there too: C16_yaml_roundtrip_iff applies to every state satisfying [inv]) *)
+Theorem C16_reachable_yaml_fixpoint_partial : forall init st, inv init -> reachable init st ->
+  (forall r, In r st -> fst r = key_id -> 2 ^ 64 <= be_value (le_bytes 32 (snd r))) ->
+  exists e, step st OMarshalYAML = Some (st, SYaml (ROk e)) /\
+            forall dst, step dst (OUnmarshal (DYaml e)) = Some (sort_regs st, SCall true).
+Proof. exact reachable_yaml_fixpoint_partial. Qed.
+Print Assumptions C16_reachable_yaml_fixpoint_partial.
+
+(** nothing of the history before the last successful Unmarshal is left in the variable: it
+    holds the collection of that document, sorted if a Sort came after it *)
+Theorem C16_history_last_unmarshal : forall pre d l post st st0,
+  final st pre = Some st0 -> parse_doc d = Some (ROk l) -> forallb quiet post = true ->
+  final st (pre ++ OUnmarshal d :: post) = Some (if existsb is_sort post then sort_regs l else l).
+Proof. exact history_last_unmarshal. Qed.
+Print Assumptions C16_history_last_unmarshal.
+
+Theorem C16_run_final : forall ops st tr,
+  run st ops = Some tr -> final st ops = Some (last (map fst tr) st).
+Proof. exact run_final. Qed.
+Print Assumptions C16_run_final.
+
+(** * 20. values that denote nothing, continued *)
+
+(** a hexadecimal string spelling a number that does not fit the register's serialised width
+    (counterpart of C16_entry_forms / C16_hex_any_spelling, which accept every number that fits) *)
+Theorem C16_hex_entry_too_wide_refused : forall id i h v,
+  lookup id registry = Some i -> id <> key_id ->
+  of_hex_aux h 0 = Some v -> 2 ^ (8 * N.of_nat (r_ser i)) <= v ->
+  yaml_entry id (YStr (pfx_hex ++ h)) = RErr.
+Proof. exact hex_entry_too_wide_refused. Qed.
+Print Assumptions C16_hex_entry_too_wide_refused.
+
+(** null (an empty value, ~, null) and the booleans, as plain scalars, are neither an integer
+    nor a string, and such a value is refused for every identifier *)
+Theorem C16_null_bool_scalar : forall s,
+  orb (in_words s null_words) (in_words s bool_words) = true -> yaml_scalar false s = Some YOther.
+Proof. exact null_bool_scalar. Qed.
+Print Assumptions C16_null_bool_scalar.
+
+Theorem C16_other_entry_refused : forall id, yaml_entry id YOther = RErr.
+Proof. exact other_entry_refused. Qed.
+Print Assumptions C16_other_entry_refused.
+
 (** * Examples: the hypotheses above are satisfiable by non-trivial values *)
 
 Open Scope string_scope.
@@ -470,3 +671,55 @@ Example C16_ex_widths :
   yaml_entry "TXT.ESTS" (YStr "base64:Af8=") = RErr /\
   yaml_entry "ACM_STATUS" (YStr "base64:EHCFTw==") = RErr.
 Proof. exact ex_widths. Qed.
+(** one variable, nine calls (section 19) *)
+Example C16_ex_ops :
+  run [("TXT.ESTS", 7%N)]
+    [OUnmarshal (DJson [("ACM_STATUS", [0x12; 0; 0; 0; 0; 0; 0; 0]%N); ("TXT.STS", [1; 2; 3; 4; 5; 6; 7; 8]%N)]);
+     OFind "ACM_STATUS"; OMarshalYAML; OSort; OFind "TXT.ESTS";
+     OUnmarshal (DYaml [("BOGUS", (false, "0x1"))]); OSetNoPath; OSetMissing; OMarshalJSON]
+  = Some [([("ACM_STATUS", 0x12%N); ("TXT.STS", 0x0807060504030201%N)], SCall true);
+          ([("ACM_STATUS", 0x12%N); ("TXT.STS", 0x0807060504030201%N)], SFound (Some ("ACM_STATUS", 0x12%N)));
+          ([("ACM_STATUS", 0x12%N); ("TXT.STS", 0x0807060504030201%N)],
+             SYaml (ROk [("ACM_STATUS", (false, "0x12")); ("TXT.STS", (false, "0x807060504030201"))]));
+          ([("TXT.STS", 0x0807060504030201%N); ("ACM_STATUS", 0x12%N)], SNone);
+          ([("TXT.STS", 0x0807060504030201%N); ("ACM_STATUS", 0x12%N)], SFound None);
+          ([("TXT.STS", 0x0807060504030201%N); ("ACM_STATUS", 0x12%N)], SCall false);
+          ([("TXT.STS", 0x0807060504030201%N); ("ACM_STATUS", 0x12%N)], SCall true);
+          ([("TXT.STS", 0x0807060504030201%N); ("ACM_STATUS", 0x12%N)], SCall false);
+          ([("TXT.STS", 0x0807060504030201%N); ("ACM_STATUS", 0x12%N)],
+             SJson (ROk [("TXT.STS", [1; 2; 3; 4; 5; 6; 7; 8]%N); ("ACM_STATUS", [0x12; 0; 0; 0; 0; 0; 0; 0]%N)]))].
+Proof. exact ex_ops. Qed.
+(** the hypotheses of section 19 on these values: invariant, well-formed calls, two reachable
+    states (before and after the Sort), a successful document and a quiet tail *)
+Example C16_ex_ops_hyps :
+  inv [("TXT.ESTS", 7%N)] /\
+  Forall op_wf [OUnmarshal ex_doc; OSort] /\
+  reachable [("TXT.ESTS", 7%N)] [("ACM_STATUS", 0x12%N); ("TXT.STS", 0x0807060504030201%N)] /\
+  reachable [("TXT.ESTS", 7%N)] [("TXT.STS", 0x0807060504030201%N); ("ACM_STATUS", 0x12%N)] /\
+  parse_doc ex_doc = Some (ROk [("ACM_STATUS", 0x12%N); ("TXT.STS", 0x0807060504030201%N)]) /\
+  forallb quiet [OMarshalJSON; OSort; OUnmarshal (DYaml [("BOGUS", (false, "0x1"))]); OFind "TXT.STS"] = true.
+Proof. exact ex_ops_hyps. Qed.
+(** the tables (section 14) *)
+Example C16_ex_tables :
+  parser_width "ACM_STATUS" = Some 8%nat /\ parser_width "TXT.ERRORCODE" = Some 4%nat /\
+  parser_width "TXT.ESTS" = Some 1%nat /\ parser_width key_id = Some 32%nat /\ parser_width "BOGUS" = None /\
+  value_from_bytes_tables "TXT.ERRORCODE" [1; 0; 0; 0xc0]%N = ROk ("TXT.ERRORCODE", 0xc0000001%N) /\
+  value_from_bytes_tables "TXT.ERRORCODE" [1; 0; 0]%N = RErr /\
+  value_from_bytes_tables "TXT.ERRORCODE" [1; 0; 0; 0xc0; 7]%N = RErr /\
+  value_from_bytes_tables "ACM_STATUS" [1; 2; 3; 4; 5; 6; 7; 8]%N = ROk ("ACM_STATUS", 0x04030201%N).
+Proof. exact ex_tables. Qed.
+(** the key condition on both sides of its boundary (section 17) *)
+Example C16_ex_small_key_bytes :
+  (be_value (le_bytes 32 (2 ^ 255)) < 2 ^ 64 /\ (2 ^ 255) mod 2 ^ 192 = 0 /\
+   2 ^ 64 <= be_value (le_bytes 32 (2 ^ 191)) /\ (2 ^ 191) mod 2 ^ 192 <> 0)%N.
+Proof. exact ex_small_key_bytes. Qed.
+
+(** section 20: 0x100 for the one-byte register, 2^32 for a 32-bit one; null and true *)
+Example C16_ex_too_wide :
+  lookup "TXT.ESTS" registry <> None /\ "TXT.ESTS" <> key_id /\
+  of_hex_aux "100" 0 = Some 256%N /\ (2 ^ (8 * 1) <= 256)%N /\
+  yaml_entry "TXT.ESTS" (YStr "0x100") = RErr /\ yaml_entry "TXT.ESTS" (YStr "0xff") = ROk ("TXT.ESTS", 255%N) /\
+  yaml_entry "TXT.ERRORCODE" (YStr "0x100000000") = RErr /\
+  yaml_scalar false "~" = Some YOther /\ yaml_scalar false "" = Some YOther /\ yaml_scalar false "True" = Some YOther /\
+  orb (in_words "null" null_words) (in_words "null" bool_words) = true.
+Proof. exact ex_too_wide. Qed.
